@@ -25,6 +25,7 @@ def run(R):
     problems = zc.record(R, 'zonedbx through ExtendedZoneProcessor vs zic', 'all 387 zones x {every oracle transition -1d..+1d at 13 offsets, every %d s of 2000..2049}' % step, res,
                          'one evaluation = offset + DST flag + abbreviation (+ ZonedDateTime fields on a subset) at one instant; distinct = zone transitions probed',
                          [dict(zone='America/Los_Angeles', instant='2000-04-02T10:00:00Z -1s/+0s', oracle='PST -28800 / PDT -25200')])
+    problems += zc.abbrev_run(R, 'extended')
     if problems:
         zc.violation(R, 'c01', problems, 'rtc/zones c01 zonedbx <oracle> <zlo> <zhi> %d' % step)
     R.assumptions += [
